@@ -465,6 +465,11 @@ def run(prop, tier):
         # the by-name sink registry: real SinkManager vs SinkReg.step + idempotence oracles (tools/sinkreg_stream.py)
         import sinkreg_stream
         sinkreg = sinkreg_stream.run(ck, tier, ps)
+    if prop in ("C20", "C08"):
+        # registration of a thread context (C20) / the failure counter (C08): the real ThreadContextManager, ThreadContext and
+        # BackendWorker members under the N-thread atomic shim against `driver reg trace` (tools/reg_stream.py)
+        import reg_stream
+        reg_stream.run(ck, prop, tier, ex, ps)
 
     mine_or = [o for o in res["oracle"] if o["prop"] == prop]
     mine_mm = [m for m in res["mismatches"] if prop in m["props"]]
@@ -553,6 +558,9 @@ def replay(prop, path):
     if "sinkreg" in open(path).readline():
         import sinkreg_stream
         return sinkreg_stream.replay(prop, path)
+    if open(path).readline().startswith("# h1_reg"):
+        import reg_stream
+        return reg_stream.replay(prop, path)
     lines = [l.rstrip("\n") for l in open(path) if l.strip() and not l.startswith("#")]
     v = 1 if re.search(r"\.v1\.|variant=1|v1_", path + " ".join(lines[:2])) else 0
     ok, hbin, log = vlib.build_harness("h2_v%d" % v, ["h2_backend.cpp"], extra_flags=["-fno-access-control", "-DH2_VARIANT=%d" % v])
